@@ -342,9 +342,9 @@ class Evaluator:
         bound: dict[str, Any] = {}
         names = [x.name for x in init.params if x.name != "self"]
         defaults = {x.name: x.default for x in init.params}
-        for nm, a in zip(names, ctor[2]):
-            bound[nm] = self.ev(a)
-        for nm, a in ctor[3]:
+        for nm, a in list(zip(names, ctor[2])) + list(ctor[3]):
+            if a[0] == "const" and isinstance(a[1], str):
+                continue  # the name of the term (or another text): not a number, and no kernel reads it as one
             bound[nm] = self.ev(a)
         argval = self.ev(args[0])
         xname = fn.params[1].name
@@ -455,7 +455,9 @@ def return_term(p: Program, cls: ClassInfo, meth: str) -> Term:
         raise AnalysisError(f"{cls.qualname}.{meth} returns nothing")
     from .sym import phi
 
-    t = phi([r.term(n.ast.value, n) for n in rets])
+    from .npcanon import desugar
+
+    t = desugar(phi([r.term(n.ast.value, n) for n in rets]))  # np.less_equal(a, b) is a <= b, np.logical_and is &, ...
     cache[key] = t
     return t
 
